@@ -277,12 +277,6 @@ theorem openParamErr_none {a : Args} (h : openParamErr a = none) : typeBad a = f
     | none => exact ⟨rfl, rfl⟩
     | some e => simp [hs] at h
 
-/-- an argument the traditional tail does not reject is not one of the type-checked pull-only arguments -/
-theorem typeBad_of_not_reject {a : Args} (h : fallbackReject a = false) : typeBad a = false := by
-  cases hf : a.fam <;>
-    simp [fallbackReject, hf, Family.row, Family.idx, Pywbem.Generated.IterOps.rows, List.getD] at h <;>
-    simp [typeBad, hf, h]
-
 /-- the connection after a successful Open (flag set to True) with server state `s'` -/
 def afterOpen (c : Conn) (a : Args) (s' : State) : Conn :=
   { srv := s', flags := setFlag c.flags a.fam (some true), log := c.log ++ [(.open a.fam, none)] }
@@ -2017,18 +2011,29 @@ theorem traderr_fails (c : Conn) (a : Args) (h : a.tradErr ≠ none) : Fails c a
   obtain ⟨e, he, _⟩ := start_traderr c a code hcode
   exact ⟨e, by simpa [next] using he⟩
 
+/-- pull path with a wrongly typed pull-only argument: TypeError out of the client part of Open…, nothing sent -/
+theorem typeBad_raises (c : Conn) (a : Args) (hv : validate a = none) (hu : usePull (c.flags a.fam) = true)
+    (htb : typeBad a = true) : (next c (.notStarted a)).2.2 = .raise .typeError := by
+  simp [next, start, hv, hu, doOpen, srvOpen, htb, handleErr, learns, finallyClose]
+
+theorem forced_raises (c : Conn) (a : Args) (hv : validate a = none) (hf : c.flags a.fam = some true)
+    (hd : c.srv.disabled = true) (htb : typeBad a = false) :
+    (next c (.notStarted a)).2.2 = .raise (.cimError CIM_ERR_NOT_SUPPORTED) := by
+  simp [next, start, hv, hf, usePull, doOpen, srvOpen, htb, hd, handleErr, learns, finallyClose]
+
 theorem forced_fails (c : Conn) (a : Args) (hv : validate a = none) (hf : c.flags a.fam = some true)
-    (hd : c.srv.disabled = true) : Fails c a :=
-  ⟨.cimError CIM_ERR_NOT_SUPPORTED,
-    by simp [next, start, hv, hf, usePull, doOpen, srvOpen, hd, handleErr, learns, finallyClose]⟩
+    (hd : c.srv.disabled = true) : Fails c a := by
+  cases htb : typeBad a with
+  | true => exact ⟨_, typeBad_raises c a hv (by simp [usePull, hf]) htb⟩
+  | false => exact ⟨_, forced_raises c a hv hf hd htb⟩
 
 theorem reject_fails (c : Conn) (a : Args) (hv : validate a = none) (hu : UsesFallback c a)
     (hr : fallbackReject a = true) : Fails c a := by
-  rcases hu with hf | ⟨hf, hd⟩
+  rcases hu with hf | ⟨hf, hd, htb⟩
   · exact ⟨.valueError, by simp [next, start_flag_false hv hf, fallbackStart_reject hf hr]⟩
   · have hf' : (afterLearn c a CIM_ERR_NOT_SUPPORTED).flags a.fam = some false := by simp [afterLearn, setFlag]
     refine ⟨.valueError, ?_⟩
-    simp only [next]; rw [start_learn hv hf hd, fallbackStart_reject hf' hr]
+    simp only [next]; rw [start_learn hv hf hd htb, fallbackStart_reject hf' hr]
 
 /-- pull path, and Open… will succeed -/
 def PullWay (c : Conn) (a : Args) : Prop :=
@@ -2060,7 +2065,10 @@ theorem classify (c : Conn) (a : Args) : PullWay c a ∨ FbWay c a ∨ Fails c a
       cases hf : c.flags a.fam with
       | none =>
         cases hd : c.srv.disabled with
-        | true => exact fb (Or.inr ⟨hf, hd⟩)
+        | true =>
+          cases htb : typeBad a with
+          | true => exact Or.inr (Or.inr ⟨_, typeBad_raises c a hv (by simp [usePull, hf]) htb⟩)
+          | false => exact fb (Or.inr ⟨hf, hd, htb⟩)
         | false => exact pl (by simp [usePull, hf]) hd
       | some b =>
         cases b with
@@ -2094,7 +2102,7 @@ theorem learned_equiv (c : Conn) (a : Args) (u : Option Bool) (hinv : Inv c.srv)
         · rcases hu with h1 | ⟨h1, h2⟩
           · exact Or.inl (by rw [h]; exact h1)
           · exact Or.inr ⟨by rw [h]; exact h1, h2⟩
-        · rcases hu with h1 | ⟨_, h2⟩
+        · rcases hu with h1 | ⟨_, h2, _⟩
           · have h1' : u = some false := h1
             rw [hnone] at h1'; cases h1'
           · have h2' : c.srv.disabled = true := h2
@@ -2196,6 +2204,30 @@ def isFinished (g : Gen) : Bool :=
   | .finished => true
   | _ => false
 
+/-- a not-started generator whose namespace is being removed (see `nsGone`) -/
+def affected (ns : Nat) (g : Gen) : Bool :=
+  match g with
+  | .notStarted a => decide (a.ns = ns ∧ a.fam ≠ .query)
+  | _ => false
+
+theorem nsGone_unaffected {ns : Nat} {g : Gen} (h : affected ns g = false) : nsGone ns g = g := by
+  cases g with
+  | notStarted a => simp only [affected, decide_eq_false_iff_not] at h; simp [nsGone, h]
+  | pulling _ _ _ _ => rfl
+  | fallback _ => rfl
+  | finished => rfl
+
+theorem nsGone_affected {ns : Nat} {g : Gen} (h : affected ns g = true) :
+    ∃ a, g = .notStarted a ∧ a.fam ≠ .query ∧
+      nsGone ns g = .notStarted { a with tradErr := some CIM_ERR_INVALID_NAMESPACE, tradObjs := [] } := by
+  cases g with
+  | notStarted a =>
+    simp only [affected, decide_eq_true_eq] at h
+    exact ⟨a, rfl, h.2, by simp [nsGone, h]⟩
+  | pulling _ _ _ _ => cases h
+  | fallback _ => cases h
+  | finished => cases h
+
 def gotAfter (got : List Obj) (r : Res) : List Obj :=
   match r with
   | .yield o => got ++ [o]
@@ -2221,6 +2253,11 @@ def ghostStep (w : World) (gh : Ghost) (ev : Ev) : Ghost :=
               got := setAt gh.got g (gotAfter (gh.got g) r.2.2),
               stopped := setAt gh.stopped g
                 (if isFinished (w.gens g) then gh.stopped g else stoppedAfter (gh.stopped g) r.2.2) }
+  | .removeNs ns =>
+    -- calls on that namespace that have not started: their traditional operation now fails, nothing to deliver
+    { gh with trad := fun j => if affected ns (w.gens j) then [] else gh.trad j,
+              comp := fun j => if affected ns (w.gens j) then [] else gh.comp j,
+              exp := fun j => if affected ns (w.gens j) then [] else gh.exp j }
   | _ => gh
 
 def runG (w : World) (gh : Ghost) : List Ev → World × Ghost
@@ -2229,7 +2266,7 @@ def runG (w : World) (gh : Ghost) : List Ev → World × Ghost
 
 /-- the generator's own context on the server -/
 def OwnCtx (c : Conn) (a : Args) (i : Nat) (x : Ctx) : Prop :=
-  x ∈ c.srv.ctxs ∧ x.id = i ∧ x.kind = pullKind a.fam ∧ x.ns ∈ c.srv.nss
+  x ∈ c.srv.ctxs ∧ x.id = i ∧ x.kind = pullKind a.fam
 
 /-- per generator: ghost values (trad, comp, exp, got, stopped) against the generator's state -/
 def GOK (c : Conn) (g : Gen) (trad comp exp got : List Obj) (stopped : Bool) : Prop :=
@@ -2424,8 +2461,35 @@ theorem throwAt_keeps (c : Conn) (g : Gen) (e : PyExc) : Keeps c (throwAt c g e)
 
 /-! #### the generator acted upon -/
 
+/-- Pull on an own context that the server refuses (pull switched off, or the namespace removed) -/
+theorem stepPull_refused (s : State) (h : Inv s) (k : Kind) (x : Ctx) (m : Int) (hx : x ∈ s.ctxs)
+    (hno : ¬ (s.disabled = false ∧ x.ns ∈ s.nss)) :
+    ∃ e, stepPull s k (some x.id) (some m) = (s, .err e) := by
+  have hl := mem_of_lookup_uniq h hx
+  rcases stepPull_cases s k x.id (some m) with he | ⟨y, hr, _, _⟩ | ⟨y, hr, _, _⟩
+  · exact he
+  · exfalso
+    have : y = x := by have := hr.2.2.1; rw [hl] at this; exact (Option.some.inj this).symm
+    subst this; exact hno ⟨hr.2.1, hr.2.2.2.1⟩
+  · exfalso
+    have : y = x := by have := hr.2.2.1; rw [hl] at this; exact (Option.some.inj this).symm
+    subst this; exact hno ⟨hr.2.1, hr.2.2.2.1⟩
+
+/-- with the family's flag decided the `except` clause cannot fall back: the generator is over, an exception
+    comes out -/
+theorem handleErr_decided_over (c : Conn) (a : Args) (e : PyExc) (eos : Bool) (ctx : Option Nat)
+    (h : c.flags a.fam ≠ none) :
+    (handleErr c a e eos ctx).2.1 = .finished ∧ ∃ e', (handleErr c a e eos ctx).2.2 = .raise e' := by
+  have hl : learns c a.fam e = false := by
+    unfold learns; cases e <;> simp [h]
+  unfold handleErr
+  simp only [hl, Bool.false_eq_true, if_false]
+  split
+  · exact ⟨rfl, _, rfl⟩
+  · exact ⟨rfl, _, rfl⟩
+
 theorem own_advance (c : Conn) (a : Args) (p : List Obj) (eos : Bool) (ctx : Option Nat)
-    (trad comp exp got : List Obj) (hd : c.srv.disabled = false) (hinv : Inv c.srv) (hm : 0 < maxOf a.max)
+    (trad comp exp got : List Obj) (hfl : c.flags a.fam = some true) (hinv : Inv c.srv) (hm : 0 < maxOf a.max)
     (h : GOK c (.pulling a p eos ctx) trad comp exp got false) :
     GOK (advance c a p eos ctx).1 (advance c a p eos ctx).2.1 trad comp exp
       (gotAfter got (advance c a p eos ctx).2.2) (stoppedAfter false (advance c a p eos ctx).2.2) ∧
@@ -2444,9 +2508,23 @@ theorem own_advance (c : Conn) (a : Args) (p : List Obj) (eos : Bool) (ctx : Opt
       have : got = exp := by simpa using hg
       exact ⟨⟨by rw [this]; exact List.prefix_refl _, fun _ => this⟩, fun q hq => by cases hq⟩
     · subst he; subst hx
-      obtain ⟨hmem, hid, hkind, hns⟩ := hown
+      obtain ⟨hmem, hid, hkind⟩ := hown
       subst hid
       have h' : got ++ x.data = exp := by simpa using hg
+      by_cases hok : c.srv.disabled = false ∧ x.ns ∈ c.srv.nss
+      case neg =>
+        -- the server refuses the Pull (no pull any more, or the namespace is gone): the flag is True, so the
+        -- exception is re-raised after the `finally` clause; what was yielded stays a prefix
+        obtain ⟨e, he⟩ := stepPull_refused c.srv hinv (pullKind a.fam) x (maxOf a.max) hmem hok
+        have e' := doPull_eq c a (some x.id) _ _ he
+        simp only [advance, Bool.false_eq_true, if_false, e']
+        obtain ⟨hg1, e2, hg2⟩ := handleErr_decided_over
+          { c with srv := c.srv, log := c.log ++ [(.pull a.fam, outErr (.err e))] } a e false (some x.id)
+          (by show c.flags a.fam ≠ none; rw [hfl]; simp)
+        rw [hg1, hg2]
+        simp only [gotAfter, stoppedAfter]
+        exact ⟨⟨⟨x.data, h'⟩, fun hh => by cases hh⟩, fun q hq => by cases hq⟩
+      obtain ⟨hd, hns⟩ := hok
       rcases stepPull_own c.srv hinv (pullKind a.fam) x (maxOf a.max) hm hd hmem hkind hns with ⟨hlen, hp⟩ | ⟨hlen, hp⟩
       · have e' := doPull_eq c a (some x.id) _ _ hp
         simp only [advance, Bool.false_eq_true, if_false, e']
@@ -2470,7 +2548,7 @@ theorem own_advance (c : Conn) (a : Args) (p : List Obj) (eos : Bool) (ctx : Opt
         | nil => exact absurd hdta hne
         | cons o rest =>
           simp only [gotAfter, stoppedAfter]
-          refine ⟨⟨rfl, Or.inr ⟨rfl, x.id, { x with data := x.data.drop (maxOf a.max).toNat }, rfl, ⟨?_, rfl, hkind, hns⟩, ?_⟩⟩,
+          refine ⟨⟨rfl, Or.inr ⟨rfl, x.id, { x with data := x.data.drop (maxOf a.max).toNat }, rfl, ⟨?_, rfl, hkind⟩, ?_⟩⟩,
             fun q hq => by cases hq⟩
           · exact mem_replaceData.mpr ⟨x, hmem, by simp⟩
           · have := List.take_append_drop (maxOf a.max).toNat x.data
@@ -2552,7 +2630,8 @@ theorem own_start (c : Conn) (a : Args) (trad comp exp : List Obj) (hinv : Inv c
         exact own_handleErr_start _ a e trad comp
       · rw [start_eq_advance c a _ _ _ _ hv hu he]
         have hd := srvOpen_batch_enabled c.srv a _ _ _ (by rw [he])
-        have hadv := own_advance (afterOpen c a c.srv) a a.tradObjs true none trad comp a.tradObjs [] hd hinv hm
+        have hadv := own_advance (afterOpen c a c.srv) a a.tradObjs true none trad comp a.tradObjs []
+          (by simp [afterOpen, setFlag]) hinv hm
           ⟨rfl, Or.inl ⟨rfl, by simp⟩⟩
         have hexp : expOf (advance (afterOpen c a c.srv) a a.tradObjs true none).2.1 a = a.tradObjs := by
           unfold expOf; split
@@ -2566,10 +2645,10 @@ theorem own_start (c : Conn) (a : Args) (trad comp exp : List Obj) (hinv : Inv c
           have := srvOpen_inv c.srv a hinv; rw [he] at this; exact this
         have hadv := own_advance (afterOpen c a (openedState c.srv (openKind a.fam) a.ns a.tradObjs (some (maxOf a.max))))
           a (a.tradObjs.take (effMax (some (maxOf a.max)))) false (some c.srv.nextId) trad comp a.tradObjs []
-          (by simpa [afterOpen, openedState] using hd) hinv' hm
+          (by simp [afterOpen, setFlag]) hinv' hm
           ⟨rfl, Or.inr ⟨rfl, c.srv.nextId,
             { id := c.srv.nextId, kind := openKind a.fam, ns := a.ns, data := a.tradObjs.drop (effMax (some (maxOf a.max))) },
-            rfl, ⟨by simp [afterOpen, openedState], rfl, kinds_agree _ hq, by simpa [afterOpen, openedState] using hns⟩,
+            rfl, ⟨by simp [afterOpen, openedState], rfl, kinds_agree _ hq⟩,
             by simp⟩⟩
         have hexp : expOf (advance (afterOpen c a (openedState c.srv (openKind a.fam) a.ns a.tradObjs (some (maxOf a.max))))
             a (a.tradObjs.take (effMax (some (maxOf a.max)))) false (some c.srv.nextId)).2.1 a = a.tradObjs := by
@@ -2581,7 +2660,7 @@ theorem own_start (c : Conn) (a : Args) (trad comp exp : List Obj) (hinv : Inv c
       exact own_fallbackStart c a trad comp
 
 theorem own_next (c : Conn) (g : Gen) (trad comp exp got : List Obj) (stopped : Bool)
-    (hd : c.srv.disabled = false) (hinv : Inv c.srv) (hg : GoodGen g)
+    (hpt : ∀ a p e x, g = .pulling a p e x → c.flags a.fam = some true) (hinv : Inv c.srv) (hg : GoodGen g)
     (h : GOK c g trad comp exp got stopped) :
     GOK (next c g).1 (next c g).2.1 trad comp (expAfter g (next c g).2.1 exp)
       (gotAfter got (next c g).2.2)
@@ -2597,7 +2676,7 @@ theorem own_next (c : Conn) (g : Gen) (trad comp exp got : List Obj) (stopped : 
     have h2 : stopped = false := h.1
     subst h2
     simp only [next, expAfter, isFinished, Bool.false_eq_true, if_false]
-    exact (own_advance c a p e x trad comp exp got hd hinv (hg _ _ _ _ rfl) h).1
+    exact (own_advance c a p e x trad comp exp got (hpt _ _ _ _ rfl) hinv (hg _ _ _ _ rfl) h).1
   | fallback p =>
     have h2 : stopped = false := h.1
     subst h2
@@ -2636,7 +2715,7 @@ theorem own_throw (c : Conn) (g : Gen) (e : PyExc) (trad comp exp got : List Obj
   rw [hfin]; exact h.prefix
 
 theorem GOK.transfer {c c' : Conn} {g : Gen} {trad comp exp got : List Obj} {stopped : Bool}
-    (h : GOK c g trad comp exp got stopped) (hn : c'.srv.nss = c.srv.nss)
+    (h : GOK c g trad comp exp got stopped)
     (hk : ∀ x ∈ c.srv.ctxs, holds g x.id → x ∈ c'.srv.ctxs) : GOK c' g trad comp exp got stopped := by
   cases g with
   | notStarted a => exact h
@@ -2644,16 +2723,16 @@ theorem GOK.transfer {c c' : Conn} {g : Gen} {trad comp exp got : List Obj} {sto
   | finished => exact h
   | pulling a p e x =>
     refine ⟨h.1, ?_⟩
-    rcases h.2 with h2 | ⟨he, i, y, hx, ⟨hmem, hid, hkind, hns⟩, h2⟩
+    rcases h.2 with h2 | ⟨he, i, y, hx, ⟨hmem, hid, hkind⟩, h2⟩
     · exact Or.inl h2
-    · refine Or.inr ⟨he, i, y, hx, ⟨hk y hmem ?_, hid, hkind, by rw [hn]; exact hns⟩, h2⟩
+    · refine Or.inr ⟨he, i, y, hx, ⟨hk y hmem ?_, hid, hkind⟩, h2⟩
       rw [holds_pulling_iff]; exact ⟨he, by rw [hx, hid]⟩
 
 /-- a generator that holds a context holds one that is on the server -/
 theorem GOK.holds_mem {c : Conn} {g : Gen} {trad comp exp got : List Obj} {stopped : Bool} {i : Nat}
     (h : GOK c g trad comp exp got stopped) (hh : holds g i) : ∃ x ∈ c.srv.ctxs, x.id = i := by
   obtain ⟨a, p, rfl⟩ := hh
-  rcases h.2 with ⟨he, _⟩ | ⟨_, i', y, hx, ⟨hmem, hid, _, _⟩, _⟩
+  rcases h.2 with ⟨he, _⟩ | ⟨_, i', y, hx, ⟨hmem, hid, _⟩, _⟩
   · cases he
   · cases hx; exact ⟨y, hmem, hid⟩
 
@@ -2725,337 +2804,6 @@ theorem next_holds (c : Conn) (g : Gen) (i : Nat) (h : holds (next c g).2.1 i) :
           right; have := this.2; simp at this; exact this.symm
       · rw [start_eq_fallback c a hv hu] at h
         exact absurd h ((fallbackStart_srv _ _).2.not_holds i)
-
-/-! #### the history invariant with the observer's notes -/
-
-structure IInv (w : World) (gh : Ghost) : Prop where
-  h : HInv w
-  inv : Inv w.conn.srv
-  pt : PT w
-  ok : ∀ j, GenOK w gh j
-  expok : ∀ j, j < w.n → gh.exp j = gh.trad j ∨ gh.exp j = gh.comp j
-  distinct : ∀ j j' i, holds (w.gens j) i → holds (w.gens j') i → j = j'
-  beyondG : ∀ j, w.n ≤ j → gh.got j = [] ∧ gh.stopped j = false
-
-theorem iinv_fresh (s : State) (u : Option Bool) (hs : s.ctxs = []) (hd : s.disabled = false) (hinv : Inv s) :
-    IInv (fresh s u) {} :=
-  ⟨⟨by intro x hx; simp [fresh, hs] at hx, hd, fun j _ _ _ _ h => (by cases h), fun _ _ => rfl⟩,
-   hinv, fun _ _ _ _ _ h => (by cases h),
-   fun j => ⟨List.nil_prefix, fun h => (by cases h)⟩,
-   fun j hj => (by simp [fresh] at hj), fun j j' i h => (by obtain ⟨_, _, h⟩ := h; cases h),
-   fun _ _ => ⟨rfl, rfl⟩⟩
-
-/-- common part of next / close / drop / throw: generator `g` goes from `w.gens g` to `g'`, the connection
-    to `c'`, the notes change only at `g` -/
-theorem iinv_update {w : World} {gh gh' : Ghost} (hi : IInv w gh) (g : Nat) (c' : Conn) (g' : Gen)
-    (hH : HInv { w with conn := c', gens := setAt w.gens g g' })
-    (hinv : Inv c'.srv) (hpt : PT { w with conn := c', gens := setAt w.gens g g' })
-    (hkeep : Keeps w.conn c' (w.gens g))
-    (hholds : ∀ i, holds g' i → holds (w.gens g) i ∨ i = w.conn.srv.nextId)
-    (hsame : ∀ j, j ≠ g → gh'.trad j = gh.trad j ∧ gh'.comp j = gh.comp j ∧ gh'.exp j = gh.exp j ∧
-      gh'.got j = gh.got j ∧ gh'.stopped j = gh.stopped j)
-    (hown : GOK c' g' (gh'.trad g) (gh'.comp g) (gh'.exp g) (gh'.got g) (gh'.stopped g))
-    (hexp : g < w.n → gh'.exp g = gh'.trad g ∨ gh'.exp g = gh'.comp g)
-    (hbey : w.n ≤ g → gh'.got g = [] ∧ gh'.stopped g = false) :
-    IInv { w with conn := c', gens := setAt w.gens g g' } gh' := by
-  refine ⟨hH, hinv, hpt, fun j => ?_, fun j hj => ?_, fun j j' i hj hj' => ?_, fun j hj => ?_⟩
-  · by_cases e : j = g
-    · subst e; simp only [GenOK, setAt_same]; exact hown
-    · obtain ⟨h1, h2, h3, h4, h5⟩ := hsame j e
-      simp only [GenOK, setAt_other _ _ e, h1, h2, h3, h4, h5]
-      refine (hi.ok j).transfer hkeep.1 (fun x hx hh => hkeep.2 x hx (fun hg => ?_))
-      exact e (hi.distinct j g x.id hh hg)
-  · by_cases e : j = g
-    · subst e; exact hexp hj
-    · obtain ⟨h1, h2, h3, _, _⟩ := hsame j e
-      rw [h1, h2, h3]; exact hi.expok j hj
-  · -- distinct holders
-    have other : ∀ k, k ≠ g → ∀ i, holds (w.gens k) i → holds g' i → False := by
-      intro k hk i hki hgi
-      obtain ⟨x, hx, hxi⟩ := (hi.ok k).holds_mem hki
-      rcases hholds i hgi with h | h
-      · exact hk (hi.distinct k g i hki h)
-      · have := hi.inv.below x hx; omega
-    by_cases e : j = g
-    · by_cases e' : j' = g
-      · rw [e, e']
-      · subst e
-        simp only [setAt_same] at hj
-        simp only [setAt_other _ _ e'] at hj'
-        exact absurd hj (fun h => other j' e' i hj' h)
-    · by_cases e' : j' = g
-      · subst e'
-        simp only [setAt_same] at hj'
-        simp only [setAt_other _ _ e] at hj
-        exact absurd hj' (fun h => other j e i hj h)
-      · simp only [setAt_other _ _ e] at hj
-        simp only [setAt_other _ _ e'] at hj'
-        exact hi.distinct j j' i hj hj'
-  · by_cases e : j = g
-    · subst e; exact hbey hj
-    · obtain ⟨_, _, _, h4, h5⟩ := hsame j e
-      rw [h4, h5]; exact hi.beyondG j hj
-
-/-- events of the interleaving theorem: as `Allowed`, and no namespace is removed under a running enumeration -/
-def AllowedI (ev : Ev) : Prop :=
-  match ev with
-  | .removeNs _ => False
-  | ev => Allowed ev
-
-instance (ev : Ev) : Decidable (AllowedI ev) := by
-  cases ev <;> simp only [AllowedI] <;> infer_instance
-
-theorem AllowedI.allowed {ev : Ev} (h : AllowedI ev) : Allowed ev := by
-  cases ev <;> simp only [AllowedI] at h <;> first | exact h | exact h.elim
-
-theorem iinv_step {w : World} {gh : Ghost} (ev : Ev) (hi : IInv w gh) (hai : AllowedI ev) :
-    IInv (stepW w ev).1 (ghostStep w gh ev) := by
-  have ha : Allowed ev := hai.allowed
-  have hH := hinv_step ev hi.h ha
-  have hpt := pt_step ev hi.pt
-  cases ev with
-  | next g =>
-    simp only [stepW] at hH hpt ⊢
-    refine iinv_update hi g _ _ hH (next_inv _ _ hi.inv) hpt (next_keeps _ _ hi.inv)
-      (fun i h => next_holds _ _ i h) (fun j e => ?_) ?_ (fun hg => ?_) (fun hg => ?_)
-    · simp [ghostStep, setAt_other _ _ e]
-    · simp only [ghostStep, setAt_same]
-      exact own_next _ _ _ _ _ _ _ hi.h.enabled hi.inv (hi.h.good g) (hi.ok g)
-    · simp only [ghostStep, setAt_same]
-      cases hgen : w.gens g with
-      | notStarted a =>
-        have hk := hi.ok g
-        simp only [GenOK, hgen] at hk
-        simp only [expAfter, expOf]
-        split
-        · right; exact hk.2.2.2.1.symm
-        · left; exact hk.2.2.1.symm
-      | pulling a p e x => simp only [expAfter]; exact hi.expok g hg
-      | fallback p => simp only [expAfter]; exact hi.expok g hg
-      | finished => simp only [expAfter]; exact hi.expok g hg
-    · simp only [ghostStep, setAt_same, hi.h.beyond g hg, isFinished, if_true]
-      have hb := hi.beyondG g hg
-      exact ⟨by simp only [next, gotAfter]; exact hb.1, hb.2⟩
-  | close g =>
-    simp only [stepW] at hH hpt ⊢
-    refine iinv_update hi g _ _ hH (close_inv _ _ hi.inv) hpt (close_keeps _ _)
-      (fun i h => by rw [close_gen] at h; obtain ⟨_, _, h⟩ := h; cases h) (fun j e => ⟨rfl, rfl, rfl, rfl, rfl⟩)
-      (own_close _ _ _ _ _ _ _ (hi.ok g)) (hi.expok g) (hi.beyondG g)
-  | drop g =>
-    simp only [stepW] at hH hpt ⊢
-    refine iinv_update hi g _ _ hH (close_inv _ _ hi.inv) hpt (close_keeps _ _)
-      (fun i h => by rw [close_gen] at h; obtain ⟨_, _, h⟩ := h; cases h) (fun j e => ⟨rfl, rfl, rfl, rfl, rfl⟩)
-      (own_close _ _ _ _ _ _ _ (hi.ok g)) (hi.expok g) (hi.beyondG g)
-  | throw g e =>
-    simp only [stepW] at hH hpt ⊢
-    have hown := own_throw w.conn (w.gens g) e _ _ _ _ _ (fun a p eos x hg => hi.pt g a p eos x hg) (hi.ok g)
-    refine iinv_update hi g _ _ hH (throwAt_inv _ _ _ hi.inv) hpt (throwAt_keeps _ _ _)
-      (fun i h => ?_) (fun j e => ⟨rfl, rfl, rfl, rfl, rfl⟩) hown (hi.expok g) (hi.beyondG g)
-    -- after a throw the generator is over (its flag is True, so the handler does not fall back)
-    exfalso
-    cases hgen : w.gens g with
-    | pulling a p eos x =>
-      have hfl := hi.pt g a p eos x hgen
-      have hl : learns w.conn a.fam e = false := by unfold learns; cases e <;> simp [hfl]
-      rw [hgen] at h
-      simp only [throwAt, handleErr, hl, Bool.false_eq_true, if_false] at h
-      split at h <;> (obtain ⟨_, _, h⟩ := h; cases h)
-    | notStarted a => rw [hgen] at h; obtain ⟨_, _, h⟩ := h; cases h
-    | fallback p => rw [hgen] at h; obtain ⟨_, _, h⟩ := h; cases h
-    | finished => rw [hgen] at h; obtain ⟨_, _, h⟩ := h; cases h
-  | setDisabled b =>
-    have hb : b = false := ha
-    subst hb
-    exact ⟨hH, ⟨hi.inv.uniq, hi.inv.below, hi.inv.nonempty⟩, hpt, hi.ok, hi.expok, hi.distinct, hi.beyondG⟩
-  | removeNs n => exact hai.elim
-  | call a =>
-    have notheld : ∀ j i, holds (w.gens j) i → j ≠ w.n := by
-      intro j i hj e; subst e
-      rw [hi.h.beyond _ (Nat.le_refl _)] at hj
-      obtain ⟨_, _, hj⟩ := hj; cases hj
-    by_cases hl : a.fam.row.isLazy = true
-    · simp only [stepW, hl, if_true] at hH hpt ⊢
-      refine ⟨hH, hi.inv, hpt, fun j => ?_, fun j hj => ?_, fun j j' i hj hj' => ?_, fun j hj => ?_⟩
-      · by_cases e : j = w.n
-        · subst e
-          have hb := hi.beyondG w.n (Nat.le_refl _)
-          simp only [GenOK, ghostStep, setAt_same]
-          exact ⟨hb.1, hb.2, rfl, rfl, (lazy_iff _).mp hl⟩
-        · simp only [GenOK, ghostStep, setAt_other _ _ e]; exact hi.ok j
-      · by_cases e : j = w.n
-        · subst e; simp [ghostStep, setAt_same]
-        · simp only [ghostStep, setAt_other _ _ e]; exact hi.expok j (by simp only [] at hj; omega)
-      · by_cases e : j = w.n
-        · subst e; simp only [setAt_same] at hj; obtain ⟨_, _, hj⟩ := hj; cases hj
-        · by_cases e' : j' = w.n
-          · subst e'; simp only [setAt_same] at hj'; obtain ⟨_, _, hj'⟩ := hj'; cases hj'
-          · simp only [setAt_other _ _ e] at hj
-            simp only [setAt_other _ _ e'] at hj'
-            exact hi.distinct j j' i hj hj'
-      · have : j ≠ w.n := by simp only [] at hj; omega
-        simp only [ghostStep]; exact hi.beyondG j (by simp only [] at hj; omega)
-    · have hq : a.fam = .query := by
-        by_cases e : a.fam = .query
-        · exact e
-        · exact absurd ((lazy_iff _).mpr e) hl
-      have ht : a.tradErr ≠ none := by
-        rcases ha with h' | h'
-        · exact absurd hq h'
-        · exact h'
-      obtain ⟨code, hcode⟩ := Option.ne_none_iff_exists'.mp ht
-      obtain ⟨e, _, _, hsrv⟩ := callEager_traderr w.conn a code hcode
-      simp only [stepW, hl, Bool.false_eq_true, if_false] at hH hpt ⊢
-      refine ⟨hH, by rw [hsrv]; exact hi.inv, hpt, fun j => ?_, fun j hj => ?_, fun j j' i hj hj' => ?_, fun j hj => ?_⟩
-      · by_cases e : j = w.n
-        · subst e
-          have hb := hi.beyondG w.n (Nat.le_refl _)
-          simp only [GenOK, ghostStep, setAt_same]
-          exact ⟨by rw [hb.1]; exact List.nil_prefix, fun h => by rw [hb.2] at h; cases h⟩
-        · simp only [GenOK, ghostStep, setAt_other _ _ e]
-          exact (hi.ok j).transfer (by rw [hsrv]) (fun x hx _ => by rw [hsrv]; exact hx)
-      · by_cases e : j = w.n
-        · subst e; simp [ghostStep, setAt_same]
-        · simp only [ghostStep, setAt_other _ _ e]; exact hi.expok j (by simp only [] at hj; omega)
-      · by_cases e : j = w.n
-        · subst e; simp only [setAt_same] at hj; obtain ⟨_, _, hj⟩ := hj; cases hj
-        · by_cases e' : j' = w.n
-          · subst e'; simp only [setAt_same] at hj'; obtain ⟨_, _, hj'⟩ := hj'; cases hj'
-          · simp only [setAt_other _ _ e] at hj
-            simp only [setAt_other _ _ e'] at hj'
-            exact hi.distinct j j' i hj hj'
-      · simp only [ghostStep]; exact hi.beyondG j (by simp only [] at hj; omega)
-
-theorem iinv_run : ∀ (evs : List Ev) {w : World} {gh : Ghost}, IInv w gh → (∀ ev ∈ evs, AllowedI ev) →
-    IInv (runG w gh evs).1 (runG w gh evs).2 := by
-  intro evs
-  induction evs with
-  | nil => intro w gh h _; exact h
-  | cons ev evs ih =>
-    intro w gh h ha
-    exact ih (iinv_step ev h (ha ev (by simp))) (fun e he => ha e (by simp [he]))
-
-theorem runG_world (w : World) (gh : Ghost) (evs : List Ev) : (runG w gh evs).1 = (runW w evs).1 := by
-  induction evs generalizing w gh with
-  | nil => rfl
-  | cons ev evs ih => simp only [runG, runW]; exact ih _ _
-
-/-! ### the C14 server invariant along every Iter history -/
-
-theorem drain_inv : ∀ (k : Nat) (c : Conn) (g : Gen), Inv c.srv → Inv (drain c g k).1.srv := by
-  intro k
-  induction k with
-  | zero => intro c g h; exact h
-  | succ k ih =>
-    intro c g h
-    unfold drain
-    have hn := next_inv c g h
-    split
-    · rename_i c' g' o heq
-      rw [heq] at hn
-      exact ih c' g' hn
-    · rename_i c' g' r hne heq
-      rw [heq] at hn
-      exact hn
-
-theorem callEager_inv (c : Conn) (a : Args) (h : Inv c.srv) : Inv (callEager c a).1.srv := by
-  unfold callEager
-  have := drain_inv (a.tradObjs.length + 1) c (.notStarted a) h
-  simp only []
-  split <;> exact this
-
-theorem stepW_inv (w : World) (ev : Ev) (h : Inv w.conn.srv) : Inv (stepW w ev).1.conn.srv := by
-  cases ev with
-  | call a =>
-    simp only [stepW]
-    split
-    · exact h
-    · exact callEager_inv _ _ h
-  | next g => exact next_inv _ _ h
-  | close g => exact close_inv _ _ h
-  | drop g => exact close_inv _ _ h
-  | throw g e => exact throwAt_inv _ _ _ h
-  | setDisabled b => exact ⟨h.uniq, h.below, h.nonempty⟩
-  | removeNs n => exact ⟨h.uniq, h.below, h.nonempty⟩
-
-theorem runW_inv : ∀ (evs : List Ev) (w : World), Inv w.conn.srv → Inv (runW w evs).1.conn.srv := by
-  intro evs
-  induction evs with
-  | nil => intro w h; exact h
-  | cons ev evs ih => intro w h; exact ih _ (stepW_inv w ev h)
-
-/-! ### what a learned flag can change, for a server that toggles at will -/
-
-theorem outcome_zero (c : Conn) (a : Args) : outcome c a 0 = ([], none) := by simp [outcome, takeN]
-
-theorem fails_outcome_exact {c : Conn} {a : Args} {e : PyExc} (h : (next c (.notStarted a)).2.2 = .raise e)
-    (k : Nat) : outcome c a (k + 1) = ([], some (.raise e)) := by
-  have := takeN_raise h k
-  simp only [outcome]; rw [this.1, this.2]
-
-/-- the connection `c` with nothing learned (configured with `use_pull_operations=None`) -/
-def unlearned (c : Conn) : Conn := { c with flags := fun _ => none }
-
-/-- **Exactly two ways a learned flag hurts.**  Any connection state (reachable by any history: the server may have
-    toggled its capability any number of times), any call that succeeds within `k` steps on the same connection with
-    nothing learned: on the used connection the call
-    (1) has the same outcome, or
-    (2) [stale False, server has pull again, no pull-only argument] yields the same traditional objects through the
-        fallback (completed paths) instead of the pull path, or
-    (3) [stale False, server has pull again, FilterQuery/ContinueOnError] raises ValueError at the first `next()`
-        — known finding KF1, or
-    (4) [stale True, server lost pull] raises CIM_ERR_NOT_SUPPORTED at the first `next()` — known finding KF2. -/
-theorem learned_dichotomy (c : Conn) (a : Args) (k : Nat) (hinv : Inv c.srv) (hq : a.fam ≠ .query)
-    (hok : ∀ e, (outcome (unlearned c) a k).2 ≠ some (.raise e)) :
-    outcome c a k = outcome (unlearned c) a k ∨
-    (c.flags a.fam = some false ∧ c.srv.disabled = false ∧ fallbackReject a = false ∧
-      outcome c a k = specOf (fallbackItems a) k ∧ outcome (unlearned c) a k = specOf a.tradObjs k) ∨
-    (c.flags a.fam = some false ∧ c.srv.disabled = false ∧ fallbackReject a = true ∧
-      (k = 0 ∨ outcome c a k = ([], some (.raise .valueError)))) ∨
-    (c.flags a.fam = some true ∧ c.srv.disabled = true ∧
-      (k = 0 ∨ outcome c a k = ([], some (.raise (.cimError CIM_ERR_NOT_SUPPORTED))))) := by
-  cases k with
-  | zero => left; rw [outcome_zero, outcome_zero]
-  | succ k =>
-    cases hf : c.flags a.fam with
-    | none => exact Or.inl (learned_equiv c a none hinv hq (Or.inl hf) (k + 1) hok)
-    | some b =>
-      by_cases hb : b = !c.srv.disabled
-      · exact Or.inl (learned_equiv c a none hinv hq (Or.inr ⟨rfl, by rw [hf, hb]⟩) (k + 1) hok)
-      · cases b with
-        | true =>
-          have hd : c.srv.disabled = true := by
-            cases h : c.srv.disabled with
-            | true => rfl
-            | false => rw [h] at hb; simp at hb
-          cases hv : validate a with
-          | some e =>
-            obtain ⟨e', he'⟩ := fails_outcome (validate_fails (unlearned c) a e hv) k
-            exact absurd he' (hok e')
-          | none =>
-            refine Or.inr (Or.inr (Or.inr ⟨rfl, hd, Or.inr ?_⟩))
-            apply fails_outcome_exact
-            simp [next, start, hv, hf, usePull, doOpen, srvOpen, hd, handleErr, learns, finallyClose]
-        | false =>
-          have hd : c.srv.disabled = false := by
-            cases h : c.srv.disabled with
-            | false => rfl
-            | true => rw [h] at hb; simp at hb
-          rcases classify (unlearned c) a with ⟨hv, hu, _, hns, hp, ht⟩ | ⟨_, hu, _, _⟩ | hfail
-          · by_cases hr : fallbackReject a = true
-            · refine Or.inr (Or.inr (Or.inl ⟨rfl, hd, hr, Or.inr ?_⟩))
-              apply fails_outcome_exact
-              simp [next, start_flag_false hv hf, fallbackStart_reject hf hr]
-            · have hr' : fallbackReject a = false := by simpa using hr
-              exact Or.inr (Or.inl ⟨rfl, hd, hr',
-                (fallback_spec c a (k + 1) hv (Or.inl hf) hr' ht).1,
-                (pull_path_spec (unlearned c) a (k + 1) hv hu hd hns hp ht hinv hq).1⟩)
-          · -- the unlearned connection cannot be on the fallback: its flag is None and the server has pull
-            rcases hu with h | ⟨_, h⟩
-            · simp [unlearned] at h
-            · have : c.srv.disabled = true := h
-              rw [hd] at this; cases this
-          · obtain ⟨e', he'⟩ := fails_outcome hfail k
-            exact absurd he' (hok e')
 
 /-! ### no context leak, for a server that toggles at will -/
 
@@ -3405,5 +3153,354 @@ theorem hinv2_run : ∀ (evs : List Ev) {w : World}, HInv2 w → (∀ ev ∈ evs
   | cons ev evs ih =>
     intro w h ha
     exact ih (hinv2_step ev h (ha ev (by simp))) (fun e he => ha e (by simp [he]))
+
+/-! #### the history invariant with the observer's notes -/
+
+structure IInv (w : World) (gh : Ghost) : Prop where
+  h : HInv2 w
+  inv : Inv w.conn.srv
+  pt : PT w
+  ok : ∀ j, GenOK w gh j
+  expok : ∀ j, j < w.n → gh.exp j = gh.trad j ∨ gh.exp j = gh.comp j
+  distinct : ∀ j j' i, holds (w.gens j) i → holds (w.gens j') i → j = j'
+  beyondG : ∀ j, w.n ≤ j → gh.got j = [] ∧ gh.stopped j = false
+
+theorem iinv_fresh (s : State) (u : Option Bool) (hs : s.ctxs = []) (hinv : Inv s) :
+    IInv (fresh s u) {} :=
+  ⟨⟨by intro x hx; simp [fresh, hs] at hx, fun j _ _ _ _ h => (by cases h), fun _ _ => rfl⟩,
+   hinv, fun _ _ _ _ _ h => (by cases h),
+   fun j => ⟨List.nil_prefix, fun h => (by cases h)⟩,
+   fun j hj => (by simp [fresh] at hj), fun j j' i h => (by obtain ⟨_, _, h⟩ := h; cases h),
+   fun _ _ => ⟨rfl, rfl⟩⟩
+
+/-- common part of next / close / drop / throw: generator `g` goes from `w.gens g` to `g'`, the connection
+    to `c'`, the notes change only at `g` -/
+theorem iinv_update {w : World} {gh gh' : Ghost} (hi : IInv w gh) (g : Nat) (c' : Conn) (g' : Gen)
+    (hH : HInv2 { w with conn := c', gens := setAt w.gens g g' })
+    (hinv : Inv c'.srv) (hpt : PT { w with conn := c', gens := setAt w.gens g g' })
+    (hkeep : Keeps w.conn c' (w.gens g))
+    (hholds : ∀ i, holds g' i → holds (w.gens g) i ∨ i = w.conn.srv.nextId)
+    (hsame : ∀ j, j ≠ g → gh'.trad j = gh.trad j ∧ gh'.comp j = gh.comp j ∧ gh'.exp j = gh.exp j ∧
+      gh'.got j = gh.got j ∧ gh'.stopped j = gh.stopped j)
+    (hown : GOK c' g' (gh'.trad g) (gh'.comp g) (gh'.exp g) (gh'.got g) (gh'.stopped g))
+    (hexp : g < w.n → gh'.exp g = gh'.trad g ∨ gh'.exp g = gh'.comp g)
+    (hbey : w.n ≤ g → gh'.got g = [] ∧ gh'.stopped g = false) :
+    IInv { w with conn := c', gens := setAt w.gens g g' } gh' := by
+  refine ⟨hH, hinv, hpt, fun j => ?_, fun j hj => ?_, fun j j' i hj hj' => ?_, fun j hj => ?_⟩
+  · by_cases e : j = g
+    · subst e; simp only [GenOK, setAt_same]; exact hown
+    · obtain ⟨h1, h2, h3, h4, h5⟩ := hsame j e
+      simp only [GenOK, setAt_other _ _ e, h1, h2, h3, h4, h5]
+      refine (hi.ok j).transfer (fun x hx hh => hkeep.2 x hx (fun hg => ?_))
+      exact e (hi.distinct j g x.id hh hg)
+  · by_cases e : j = g
+    · subst e; exact hexp hj
+    · obtain ⟨h1, h2, h3, _, _⟩ := hsame j e
+      rw [h1, h2, h3]; exact hi.expok j hj
+  · -- distinct holders
+    have other : ∀ k, k ≠ g → ∀ i, holds (w.gens k) i → holds g' i → False := by
+      intro k hk i hki hgi
+      obtain ⟨x, hx, hxi⟩ := (hi.ok k).holds_mem hki
+      rcases hholds i hgi with h | h
+      · exact hk (hi.distinct k g i hki h)
+      · have := hi.inv.below x hx; omega
+    by_cases e : j = g
+    · by_cases e' : j' = g
+      · rw [e, e']
+      · subst e
+        simp only [setAt_same] at hj
+        simp only [setAt_other _ _ e'] at hj'
+        exact absurd hj (fun h => other j' e' i hj' h)
+    · by_cases e' : j' = g
+      · subst e'
+        simp only [setAt_same] at hj'
+        simp only [setAt_other _ _ e] at hj
+        exact absurd hj' (fun h => other j e i hj h)
+      · simp only [setAt_other _ _ e] at hj
+        simp only [setAt_other _ _ e'] at hj'
+        exact hi.distinct j j' i hj hj'
+  · by_cases e : j = g
+    · subst e; exact hbey hj
+    · obtain ⟨_, _, _, h4, h5⟩ := hsame j e
+      rw [h4, h5]; exact hi.beyondG j hj
+
+/-- events of the interleaving theorem: as `Allowed`, and no namespace is removed under a running enumeration -/
+def AllowedI (ev : Ev) : Prop :=
+  match ev with
+  | .removeNs _ => False
+  | ev => Allowed ev
+
+instance (ev : Ev) : Decidable (AllowedI ev) := by
+  cases ev <;> simp only [AllowedI] <;> infer_instance
+
+theorem AllowedI.allowed {ev : Ev} (h : AllowedI ev) : Allowed ev := by
+  cases ev <;> simp only [AllowedI] at h <;> first | exact h | exact h.elim
+
+theorem iinv_step {w : World} {gh : Ghost} (ev : Ev) (hi : IInv w gh) (ha : CallOk ev) :
+    IInv (stepW w ev).1 (ghostStep w gh ev) := by
+  have hH := hinv2_step ev hi.h ha
+  have hpt := pt_step ev hi.pt
+  cases ev with
+  | next g =>
+    simp only [stepW] at hH hpt ⊢
+    refine iinv_update hi g _ _ hH (next_inv _ _ hi.inv) hpt (next_keeps _ _ hi.inv)
+      (fun i h => next_holds _ _ i h) (fun j e => ?_) ?_ (fun hg => ?_) (fun hg => ?_)
+    · simp [ghostStep, setAt_other _ _ e]
+    · simp only [ghostStep, setAt_same]
+      exact own_next _ _ _ _ _ _ _ (fun a p e x hg => hi.pt g a p e x hg) hi.inv (hi.h.good g) (hi.ok g)
+    · simp only [ghostStep, setAt_same]
+      cases hgen : w.gens g with
+      | notStarted a =>
+        have hk := hi.ok g
+        simp only [GenOK, hgen] at hk
+        simp only [expAfter, expOf]
+        split
+        · right; exact hk.2.2.2.1.symm
+        · left; exact hk.2.2.1.symm
+      | pulling a p e x => simp only [expAfter]; exact hi.expok g hg
+      | fallback p => simp only [expAfter]; exact hi.expok g hg
+      | finished => simp only [expAfter]; exact hi.expok g hg
+    · simp only [ghostStep, setAt_same, hi.h.beyond g hg, isFinished, if_true]
+      have hb := hi.beyondG g hg
+      exact ⟨by simp only [next, gotAfter]; exact hb.1, hb.2⟩
+  | close g =>
+    simp only [stepW] at hH hpt ⊢
+    refine iinv_update hi g _ _ hH (close_inv _ _ hi.inv) hpt (close_keeps _ _)
+      (fun i h => by rw [close_gen] at h; obtain ⟨_, _, h⟩ := h; cases h) (fun j e => ⟨rfl, rfl, rfl, rfl, rfl⟩)
+      (own_close _ _ _ _ _ _ _ (hi.ok g)) (hi.expok g) (hi.beyondG g)
+  | drop g =>
+    simp only [stepW] at hH hpt ⊢
+    refine iinv_update hi g _ _ hH (close_inv _ _ hi.inv) hpt (close_keeps _ _)
+      (fun i h => by rw [close_gen] at h; obtain ⟨_, _, h⟩ := h; cases h) (fun j e => ⟨rfl, rfl, rfl, rfl, rfl⟩)
+      (own_close _ _ _ _ _ _ _ (hi.ok g)) (hi.expok g) (hi.beyondG g)
+  | throw g e =>
+    simp only [stepW] at hH hpt ⊢
+    have hown := own_throw w.conn (w.gens g) e _ _ _ _ _ (fun a p eos x hg => hi.pt g a p eos x hg) (hi.ok g)
+    refine iinv_update hi g _ _ hH (throwAt_inv _ _ _ hi.inv) hpt (throwAt_keeps _ _ _)
+      (fun i h => ?_) (fun j e => ⟨rfl, rfl, rfl, rfl, rfl⟩) hown (hi.expok g) (hi.beyondG g)
+    -- after a throw the generator is over (its flag is True, so the handler does not fall back)
+    exfalso
+    cases hgen : w.gens g with
+    | pulling a p eos x =>
+      have hfl := hi.pt g a p eos x hgen
+      have hl : learns w.conn a.fam e = false := by unfold learns; cases e <;> simp [hfl]
+      rw [hgen] at h
+      simp only [throwAt, handleErr, hl, Bool.false_eq_true, if_false] at h
+      split at h <;> (obtain ⟨_, _, h⟩ := h; cases h)
+    | notStarted a => rw [hgen] at h; obtain ⟨_, _, h⟩ := h; cases h
+    | fallback p => rw [hgen] at h; obtain ⟨_, _, h⟩ := h; cases h
+    | finished => rw [hgen] at h; obtain ⟨_, _, h⟩ := h; cases h
+  | setDisabled b =>
+    exact ⟨hH, ⟨hi.inv.uniq, hi.inv.below, hi.inv.nonempty⟩, hpt, hi.ok, hi.expok, hi.distinct, hi.beyondG⟩
+  | removeNs n =>
+    refine ⟨hH, ⟨hi.inv.uniq, hi.inv.below, hi.inv.nonempty⟩, hpt, fun j => ?_, fun j hj => ?_,
+      fun j j' i hj hj' => hi.distinct j j' i (nsGone_holds.mp hj) (nsGone_holds.mp hj'), fun j hj => ?_⟩
+    · cases haf : affected n (w.gens j) with
+      | false =>
+        simp only [GenOK, stepW, ghostStep, haf, Bool.false_eq_true, if_false, nsGone_unaffected haf]
+        exact (hi.ok j).transfer (fun x hx _ => hx)
+      | true =>
+        obtain ⟨a, hga, hq, hns⟩ := nsGone_affected haf
+        have hk := hi.ok j
+        simp only [GenOK, hga] at hk
+        simp only [GenOK, stepW, ghostStep, haf, if_true, hns]
+        refine ⟨hk.1, hk.2.1, rfl, ?_, hq⟩
+        unfold fallbackItems; split <;> rfl
+    · cases haf : affected n (w.gens j) with
+      | false => simp only [ghostStep, haf, Bool.false_eq_true, if_false]; exact hi.expok j hj
+      | true => simp [ghostStep, haf]
+    · exact hi.beyondG j hj
+  | call a =>
+    have notheld : ∀ j i, holds (w.gens j) i → j ≠ w.n := by
+      intro j i hj e; subst e
+      rw [hi.h.beyond _ (Nat.le_refl _)] at hj
+      obtain ⟨_, _, hj⟩ := hj; cases hj
+    by_cases hl : a.fam.row.isLazy = true
+    · simp only [stepW, hl, if_true] at hH hpt ⊢
+      refine ⟨hH, hi.inv, hpt, fun j => ?_, fun j hj => ?_, fun j j' i hj hj' => ?_, fun j hj => ?_⟩
+      · by_cases e : j = w.n
+        · subst e
+          have hb := hi.beyondG w.n (Nat.le_refl _)
+          simp only [GenOK, ghostStep, setAt_same]
+          exact ⟨hb.1, hb.2, rfl, rfl, (lazy_iff _).mp hl⟩
+        · simp only [GenOK, ghostStep, setAt_other _ _ e]; exact hi.ok j
+      · by_cases e : j = w.n
+        · subst e; simp [ghostStep, setAt_same]
+        · simp only [ghostStep, setAt_other _ _ e]; exact hi.expok j (by simp only [] at hj; omega)
+      · by_cases e : j = w.n
+        · subst e; simp only [setAt_same] at hj; obtain ⟨_, _, hj⟩ := hj; cases hj
+        · by_cases e' : j' = w.n
+          · subst e'; simp only [setAt_same] at hj'; obtain ⟨_, _, hj'⟩ := hj'; cases hj'
+          · simp only [setAt_other _ _ e] at hj
+            simp only [setAt_other _ _ e'] at hj'
+            exact hi.distinct j j' i hj hj'
+      · have : j ≠ w.n := by simp only [] at hj; omega
+        simp only [ghostStep]; exact hi.beyondG j (by simp only [] at hj; omega)
+    · have hq : a.fam = .query := by
+        by_cases e : a.fam = .query
+        · exact e
+        · exact absurd ((lazy_iff _).mpr e) hl
+      have ht : a.tradErr ≠ none := by
+        rcases ha with h' | h'
+        · exact absurd hq h'
+        · exact h'
+      obtain ⟨code, hcode⟩ := Option.ne_none_iff_exists'.mp ht
+      obtain ⟨e, _, _, hsrv⟩ := callEager_traderr w.conn a code hcode
+      simp only [stepW, hl, Bool.false_eq_true, if_false] at hH hpt ⊢
+      refine ⟨hH, by rw [hsrv]; exact hi.inv, hpt, fun j => ?_, fun j hj => ?_, fun j j' i hj hj' => ?_, fun j hj => ?_⟩
+      · by_cases e : j = w.n
+        · subst e
+          have hb := hi.beyondG w.n (Nat.le_refl _)
+          simp only [GenOK, ghostStep, setAt_same]
+          exact ⟨by rw [hb.1]; exact List.nil_prefix, fun h => by rw [hb.2] at h; cases h⟩
+        · simp only [GenOK, ghostStep, setAt_other _ _ e]
+          exact (hi.ok j).transfer (fun x hx _ => by rw [hsrv]; exact hx)
+      · by_cases e : j = w.n
+        · subst e; simp [ghostStep, setAt_same]
+        · simp only [ghostStep, setAt_other _ _ e]; exact hi.expok j (by simp only [] at hj; omega)
+      · by_cases e : j = w.n
+        · subst e; simp only [setAt_same] at hj; obtain ⟨_, _, hj⟩ := hj; cases hj
+        · by_cases e' : j' = w.n
+          · subst e'; simp only [setAt_same] at hj'; obtain ⟨_, _, hj'⟩ := hj'; cases hj'
+          · simp only [setAt_other _ _ e] at hj
+            simp only [setAt_other _ _ e'] at hj'
+            exact hi.distinct j j' i hj hj'
+      · simp only [ghostStep]; exact hi.beyondG j (by simp only [] at hj; omega)
+
+theorem iinv_run : ∀ (evs : List Ev) {w : World} {gh : Ghost}, IInv w gh → (∀ ev ∈ evs, CallOk ev) →
+    IInv (runG w gh evs).1 (runG w gh evs).2 := by
+  intro evs
+  induction evs with
+  | nil => intro w gh h _; exact h
+  | cons ev evs ih =>
+    intro w gh h ha
+    exact ih (iinv_step ev h (ha ev (by simp))) (fun e he => ha e (by simp [he]))
+
+theorem runG_world (w : World) (gh : Ghost) (evs : List Ev) : (runG w gh evs).1 = (runW w evs).1 := by
+  induction evs generalizing w gh with
+  | nil => rfl
+  | cons ev evs ih => simp only [runG, runW]; exact ih _ _
+
+/-! ### the C14 server invariant along every Iter history -/
+
+theorem drain_inv : ∀ (k : Nat) (c : Conn) (g : Gen), Inv c.srv → Inv (drain c g k).1.srv := by
+  intro k
+  induction k with
+  | zero => intro c g h; exact h
+  | succ k ih =>
+    intro c g h
+    unfold drain
+    have hn := next_inv c g h
+    split
+    · rename_i c' g' o heq
+      rw [heq] at hn
+      exact ih c' g' hn
+    · rename_i c' g' r hne heq
+      rw [heq] at hn
+      exact hn
+
+theorem callEager_inv (c : Conn) (a : Args) (h : Inv c.srv) : Inv (callEager c a).1.srv := by
+  unfold callEager
+  have := drain_inv (a.tradObjs.length + 1) c (.notStarted a) h
+  simp only []
+  split <;> exact this
+
+theorem stepW_inv (w : World) (ev : Ev) (h : Inv w.conn.srv) : Inv (stepW w ev).1.conn.srv := by
+  cases ev with
+  | call a =>
+    simp only [stepW]
+    split
+    · exact h
+    · exact callEager_inv _ _ h
+  | next g => exact next_inv _ _ h
+  | close g => exact close_inv _ _ h
+  | drop g => exact close_inv _ _ h
+  | throw g e => exact throwAt_inv _ _ _ h
+  | setDisabled b => exact ⟨h.uniq, h.below, h.nonempty⟩
+  | removeNs n => exact ⟨h.uniq, h.below, h.nonempty⟩
+
+theorem runW_inv : ∀ (evs : List Ev) (w : World), Inv w.conn.srv → Inv (runW w evs).1.conn.srv := by
+  intro evs
+  induction evs with
+  | nil => intro w h; exact h
+  | cons ev evs ih => intro w h; exact ih _ (stepW_inv w ev h)
+
+/-! ### what a learned flag can change, for a server that toggles at will -/
+
+theorem outcome_zero (c : Conn) (a : Args) : outcome c a 0 = ([], none) := by simp [outcome, takeN]
+
+theorem fails_outcome_exact {c : Conn} {a : Args} {e : PyExc} (h : (next c (.notStarted a)).2.2 = .raise e)
+    (k : Nat) : outcome c a (k + 1) = ([], some (.raise e)) := by
+  have := takeN_raise h k
+  simp only [outcome]; rw [this.1, this.2]
+
+/-- the connection `c` with nothing learned (configured with `use_pull_operations=None`) -/
+def unlearned (c : Conn) : Conn := { c with flags := fun _ => none }
+
+/-- **Exactly two ways a learned flag hurts.**  Any connection state (reachable by any history: the server may have
+    toggled its capability any number of times), any call that succeeds within `k` steps on the same connection with
+    nothing learned: on the used connection the call
+    (1) has the same outcome, or
+    (2) [stale False, server has pull again, no pull-only argument] yields the same traditional objects through the
+        fallback (completed paths) instead of the pull path, or
+    (3) [stale False, server has pull again, FilterQuery/ContinueOnError] raises ValueError at the first `next()`
+        — known finding KF1, or
+    (4) [stale True, server lost pull] raises CIM_ERR_NOT_SUPPORTED at the first `next()` — known finding KF2. -/
+theorem learned_dichotomy (c : Conn) (a : Args) (k : Nat) (hinv : Inv c.srv) (hq : a.fam ≠ .query)
+    (hok : ∀ e, (outcome (unlearned c) a k).2 ≠ some (.raise e)) :
+    outcome c a k = outcome (unlearned c) a k ∨
+    (c.flags a.fam = some false ∧ c.srv.disabled = false ∧ fallbackReject a = false ∧
+      outcome c a k = specOf (fallbackItems a) k ∧ outcome (unlearned c) a k = specOf a.tradObjs k) ∨
+    (c.flags a.fam = some false ∧ c.srv.disabled = false ∧ fallbackReject a = true ∧
+      (k = 0 ∨ outcome c a k = ([], some (.raise .valueError)))) ∨
+    (c.flags a.fam = some true ∧ c.srv.disabled = true ∧
+      (k = 0 ∨ outcome c a k = ([], some (.raise (.cimError CIM_ERR_NOT_SUPPORTED))))) := by
+  cases k with
+  | zero => left; rw [outcome_zero, outcome_zero]
+  | succ k =>
+    cases hf : c.flags a.fam with
+    | none => exact Or.inl (learned_equiv c a none hinv hq (Or.inl hf) (k + 1) hok)
+    | some b =>
+      by_cases hb : b = !c.srv.disabled
+      · exact Or.inl (learned_equiv c a none hinv hq (Or.inr ⟨rfl, by rw [hf, hb]⟩) (k + 1) hok)
+      · cases b with
+        | true =>
+          have hd : c.srv.disabled = true := by
+            cases h : c.srv.disabled with
+            | true => rfl
+            | false => rw [h] at hb; simp at hb
+          cases hv : validate a with
+          | some e =>
+            obtain ⟨e', he'⟩ := fails_outcome (validate_fails (unlearned c) a e hv) k
+            exact absurd he' (hok e')
+          | none =>
+            cases htb : typeBad a with
+            | true =>
+              obtain ⟨e', he'⟩ := fails_outcome ⟨_, typeBad_raises (unlearned c) a hv (by simp [usePull, unlearned]) htb⟩ k
+              exact absurd he' (hok e')
+            | false =>
+              refine Or.inr (Or.inr (Or.inr ⟨rfl, hd, Or.inr ?_⟩))
+              exact fails_outcome_exact (forced_raises c a hv hf hd htb) k
+        | false =>
+          have hd : c.srv.disabled = false := by
+            cases h : c.srv.disabled with
+            | false => rfl
+            | true => rw [h] at hb; simp at hb
+          rcases classify (unlearned c) a with ⟨hv, hu, _, hns, hp, ht⟩ | ⟨_, hu, _, _⟩ | hfail
+          · by_cases hr : fallbackReject a = true
+            · refine Or.inr (Or.inr (Or.inl ⟨rfl, hd, hr, Or.inr ?_⟩))
+              apply fails_outcome_exact
+              simp [next, start_flag_false hv hf, fallbackStart_reject hf hr]
+            · have hr' : fallbackReject a = false := by simpa using hr
+              exact Or.inr (Or.inl ⟨rfl, hd, hr',
+                (fallback_spec c a (k + 1) hv (Or.inl hf) hr' ht).1,
+                (pull_path_spec (unlearned c) a (k + 1) hv hu hd hns hp ht hinv hq).1⟩)
+          · -- the unlearned connection cannot be on the fallback: its flag is None and the server has pull
+            rcases hu with h | ⟨_, h, _⟩
+            · simp [unlearned] at h
+            · have : c.srv.disabled = true := h
+              rw [hd] at this; cases this
+          · obtain ⟨e', he'⟩ := fails_outcome hfail k
+            exact absurd he' (hok e')
 
 end Proofs.Iter
